@@ -75,6 +75,54 @@ def run_step(ctx, kernel, u, logl0, logl_prop, beta, ms, sigma, draws, periodic,
     return out, cb, stub
 
 
+def replay_rwm_wrapped_step(bkind, beta, vals, ms, per, ref, label):
+    """one real parallel_mcmc step (RWM, d=1, coordinate 0 periodic/reflective) with the model's innovation and a concrete likelihood that is
+    neither 1-periodic nor mirror-symmetric: the point handed to the user's functions must be the folded proposal, and the move must be
+    accepted iff urand < min(1, exp(beta (L(folded) - L(current))))."""
+    from vf.engine.util import scripted_random
+    u0, sg, z0, l00 = vals["u0"], vals["sigma"], vals["z0"], vals["L0_00"]
+    ur = vals.get("urand", 0.5)
+    seen = []
+    ll = lambda x: -3.0 * x[:, 0] - 2.0 * x[:, 0] ** 2
+
+    def like(x):
+        x = np.asarray(x, dtype=float)
+        return ll(x), None
+
+    def prior(q):
+        seen.append(np.array(q, dtype=float).copy())
+        return np.array(q, dtype=float)
+    u = np.array([[u0]])
+    y = u0 + sg * l00 * z0
+    folded = float(mcmc.apply_boundary_conditions(np.array([y]), per, ref)[0])
+    noadapt = lambda self, c, mean_accept: None
+    from vf.engine.arr import patched_attr
+    rows = []
+    # both sides of the acceptance threshold
+    a_exp = min(1.0, math.exp(float(beta) * (float(ll(np.array([[folded]]))[0]) - float(ll(u)[0]))))
+    for urv in (ur, 0.999 * a_exp, min(0.999999, 1.001 * a_exp)):
+        seen.clear()
+        with patched_attr(mcmc.RWMRunner, _adapt_sigma=noadapt, _initialize_sigmas=lambda self: np.array([sg]), _check_convergence=lambda self, acc: True), \
+                scripted_random(randn=lambda *a: np.array([z0]), rand=lambda *a: np.array([urv]), random=lambda *a, **k: urv):
+            out = mcmc.parallel_mcmc(u=u.copy(), x=u.copy(), logl=ll(u), blobs=None, assignments=np.zeros(1, dtype=int), beta=float(beta), mode_stats=ms,
+                                     log_likelihood=like, prior_transform=prior, n_steps=1, n_max=1, sample="rwm", periodic=per, reflective=ref, verbose=False)
+        u_new = float(np.asarray(out[0]).reshape(-1)[0])
+        evaluated = [float(q.reshape(-1)[0]) for q in seen]
+        accepted = abs(u_new - u0) > 0 or folded == u0
+        rows.append({"urand": urv, "evaluated_points": evaluated, "u_after": u_new, "expected_alpha": a_exp, "accepted": accepted})
+        if any(not (0.0 <= q <= 1.0) for q in evaluated):
+            return {"reproduced": True, "signature": f"rwm:{bkind}:user-functions-called-outside-the-cube", "payload": rows[-1],
+                    "what": f"rwm on a {bkind} coordinate: from u={u0!r} with sigma*L*z={sg * l00 * z0!r} the prior transform / likelihood were called at {evaluated} (outside [0,1]); the folded proposal is {folded!r}"}
+        if 0.0 <= y <= 1.0 or folded != u0:
+            want = urv < a_exp
+            if accepted != want or (accepted and abs(u_new - folded) > 1e-12):
+                return {"reproduced": True, "signature": f"rwm:{bkind}:accept-reject-not-the-tempered-ratio-at-the-folded-point", "payload": rows[-1],
+                        "what": f"rwm on a {bkind} coordinate: from u={u0!r}, raw proposal {y!r} (folded {folded!r}), urand={urv!r}: expected acceptance probability {a_exp:.6f} at the folded point, "
+                                f"the code {'accepted' if accepted else 'rejected'} and stored u={u_new!r}"}
+    return {"reproduced": False, "what": f"rwm acceptance factor 0.0; full step from u={u0!r} evaluates the folded point and accepts with the tempered ratio: {rows}"}
+
+
+
 def make_kernel(kernel, d, bkind, beta, nu=None, wraps=1, skip_ratio=False, K=1, mode=0):
     """bkind in interior|hard|periodic|reflective (coordinate 0). K modes, the walker attached to `mode` (the other modes are empty)."""
     beta = Fraction(beta)
@@ -781,7 +829,9 @@ def replay_kernel(kernel, d, bkind, beta, nu, m, label):
         up = runner._propose(0)
     fac = float(runner._compute_acceptance_factor(np.array([up]), np.zeros(1))[0])
     if kernel != "tpcn":
-        return {"reproduced": abs(fac) > 1e-12, "signature": f"{kernel}:{bkind}:{label}", "payload": {"factor": fac}, "what": f"rwm acceptance factor {fac}"}
+        if abs(fac) > 1e-12:
+            return {"reproduced": True, "signature": f"{kernel}:{bkind}:{label}", "payload": {"factor": fac}, "what": f"rwm acceptance factor {fac}"}
+        return replay_rwm_wrapped_step(bkind, beta, vals, ms, per, ref, label)
     # exact: unwrapped proposal point y = mu + a diff + sigma sqrt(s) L z ; reverse witness from the wrapped point
     a = math.sqrt(1 - sg * sg)
     s = 1.0 / g
